@@ -147,6 +147,11 @@ STRESS_SIGS = {
 }
 
 
+PARAM_FUNCS = ["asinh", "acosh", "asin", "log1p"]
+PARAM_SETS = [{"safe_min_limit": 1.0}, {"safe_max_limit_coefficient": 4.0}, {"use_fast2sum": False},
+              {"rewrite_keep_integer_literals": True}]
+
+
 def get_func(fa, name):
     if name in STRESS:
         return STRESS[name][0]
@@ -166,6 +171,13 @@ def build_universe(fa, extra_targets=()):
                 continue
             for i, sig in enumerate(ta[func]):
                 out.append(dict(target=t, func=func, sig=[s if isinstance(s, str) else s.__name__ for s in sig], sigidx=i))
+        # context parameters that shipped algorithms / the rewriter read: part of what the text may depend on
+        for func in PARAM_FUNCS:
+            if func in ta and hasattr(fa.algorithms, func) and ta[func]:
+                sig = ta[func][0]
+                for params in PARAM_SETS:
+                    out.append(dict(target=t, func=func, sig=[s if isinstance(s, str) else s.__name__ for s in sig], sigidx=0,
+                                    params=dict(params)))
         for name in sorted(STRESS):
             _, nargs, kind = STRESS[name]
             for i, ty in enumerate(STRESS_SIGS[t][kind]):
@@ -173,8 +185,14 @@ def build_universe(fa, extra_targets=()):
     return out
 
 
+def params_tag(params):
+    if not params:
+        return ""
+    return ":params=" + ",".join("%s=%r" % (k, params[k]) for k in sorted(params))
+
+
 def req_key(r, debug=None):
-    k = "%s:%s:%s" % (r["target"], r["func"], ",".join(r["sig"]))
+    k = "%s:%s:%s" % (r["target"], r["func"], ",".join(r["sig"])) + params_tag(r.get("params"))
     if debug is not None:
         k += ":debug=%d" % debug
     return k
